@@ -243,3 +243,47 @@ func (h *VHist) CanonOpt(absIDs []string, absDatasets []string, extra string, on
 	sum := sha1.Sum([]byte(strings.Join(lines, "\n")))
 	return hex.EncodeToString(sum[:])
 }
+
+
+// CatalogueDigest: the catalogue records of this history as they are on disk: the dataset records (name, public
+// namespaces, proxy / virtual settings) and, per name, the state of its meta-entity versions in core.Dataset.
+// Part of the canonical state of histories about the catalogue: two histories that agree on the entities can still
+// differ in a dataset record (e.g. one written back after the delete) that only a later restart makes visible.
+func (h *VHist) CatalogueDigest() string {
+	s := h.W.Store
+	var lines []string
+	txn := s.database.NewTransaction(false)
+	defer txn.Discard()
+	prefix := make([]byte, 2)
+	binary.BigEndian.PutUint16(prefix, SysDatasetsID)
+	opts := badger.DefaultIteratorOptions
+	opts.Prefix = prefix
+	it := txn.NewIterator(opts)
+	for it.Seek(prefix); it.ValidForPrefix(prefix); it.Next() {
+		name := string(it.Item().KeyCopy(nil)[2:])
+		if !strings.HasSuffix(name, "."+h.Tag) {
+			continue
+		}
+		_ = it.Item().Value(func(v []byte) error {
+			d := &Dataset{}
+			if err := json.Unmarshal(v, d); err != nil {
+				lines = append(lines, "rec:"+h.AbsDs(name)+":unparsable")
+				return nil
+			}
+			lines = append(lines, fmt.Sprintf("rec:%s:id=%s:ns=%v:proxy=%v:virtual=%v", h.AbsDs(name), h.AbsDs(d.ID), d.PublicNamespaces, d.ProxyConfig != nil, d.VirtualDatasetConfig != nil))
+			return nil
+		})
+	}
+	it.Close()
+	if core := h.W.Dsm.GetDataset(datasetCore); core != nil {
+		_, _ = core.MapEntities("", -1, func(e *Entity) error {
+			local := e.ID[strings.Index(e.ID, ":")+1:]
+			if strings.HasSuffix(local, "."+h.Tag) {
+				lines = append(lines, fmt.Sprintf("meta:%s:deleted=%v", h.AbsDs(local), e.IsDeleted))
+			}
+			return nil
+		})
+	}
+	sort.Strings(lines)
+	return strings.Join(lines, ";")
+}
